@@ -18,9 +18,9 @@ QUICK = [
 ]
 
 
-def scenario_sets(ctx):
+def scenario_sets(ctx, quick_skip=()):
     if ctx.tier == "quick":
-        return [("q%d" % i, [P.chain_scenario(f, waits=w, twins=TWINS.get(i, ()))]) for i, (f, w) in enumerate(QUICK)]
+        return [x for i, x in enumerate([("q%d" % i, [P.chain_scenario(f, waits=w, twins=TWINS.get(i, ()))]) for i, (f, w) in enumerate(QUICK)]) if i not in quick_skip]
     rnd = random.Random(ctx.seed)
     out = [("q%d" % i, [P.chain_scenario(f, waits=w, twins=TWINS.get(i, ()))]) for i, (f, w) in enumerate(QUICK)]
     pool = []
@@ -41,12 +41,13 @@ def scenario_sets(ctx):
 
 
 def run(ctx, invs=INVS, rel=P.rel_c07, witnesses=("W_Ann", "W_Pruned"), finish=True,
-        node_rel=lambda a: "ev.ParentReady" in a, node_sims=None):
+        node_rel=lambda a: "ev.ParentReady" in a, node_sims=None, quick_skip=(4,)):
     ctx.build_harness()
     ctx.assumptions += ["certificate universes are consistent (producible with <20% Byzantine stake): "
                         "one notarized block per slot, no skip certificate next to a finalization"]
     first = True
-    for name, scns in scenario_sets(ctx):
+    # (the quick tier of C07 / C18 leaves the finality corner scenario q4 to C08)
+    for name, scns in scenario_sets(ctx, quick_skip):
         P.run_model(ctx, "chain_" + name, [2, 2, 1], 0, 9, scns, invs + ["NoPanic"], rel,
                     witnesses=(witnesses if first else ()), timeout=3000,
                     sample=(400000 if ctx.tier == "quick" else 1500000))
